@@ -28,7 +28,8 @@ TBegin == /\ l' = l + 1 /\ stats' = Bump("scenarios") /\ UNCHANGED bad
 TOp ==
   LET x == E.x IN
   CASE E.op = "Open" ->
-         IF E.h # OpenResult(x) THEN Reject("C11-reopen-handle", <<x, E.h, OpenResult(x)>>) ELSE Go(Open(x))
+         IF ~E.same THEN Reject("C10-concurrent-open-different-connections", <<x>>)
+         ELSE IF E.h # OpenResult(x) THEN Reject("C11-reopen-handle", <<x, E.h, OpenResult(x)>>) ELSE Go(Open(x))
     [] E.op = "Close" -> Go(CloseH(x))
     [] E.op = "Send" ->
          IF E.r = "lost" THEN Reject("C10-frame-lost", <<x>>)
@@ -56,6 +57,7 @@ TraceNext ==
   /\ l <= Len(Tr)
   /\ CASE E.ev = "Begin" -> TBegin
        [] E.ev = "Op"    -> TOp
+       [] E.ev = "crash" -> Reject("C11-panic", <<E.text>>)
        [] E.ev = "End"   -> TEnd
 TraceSpec == TraceInit /\ [][TraceNext]_tv
 NotStuck == (l <= Len(Tr)) => ENABLED TraceNext
